@@ -227,3 +227,53 @@ func verifHarness_C04_stream(param int) {
 	v.drain()
 	verifReach("end")
 }
+
+// Receive path through the real connection.inputs / inputAck (book / bookAck on the real input
+// buffer, adaptive bookSize / maxSize): three poller rounds whose kernel answers are symbolic —
+// n bytes (1..len of the booked space), nothing (EAGAIN / EINTR: inputAck(0)) or an error
+// (inputAck(-1)) — in any order. The bytes the kernel ghost stored are the reference; after the
+// rounds the reader takes everything that is buffered: same length, same bytes, same order.
+// maxSize may have grown beyond bookSize (a lazy reader let earlier traffic pile up).
+//
+//verif:bounds 3 poller rounds, each: kernel stores 1..len(booked) bytes / nothing / error; bookSize, maxSize symbolic in [1, 64K] / [bookSize, 8M]; connection without callbacks (data stays buffered); one final Next of everything
+//verif:loop 40
+//verif:replay interp
+func verifHarness_C04_recvpath() {
+	c := verifNewConn(verifConnCfg{closeCBs: 1})
+	bs := verifNondetInt("bookSize")
+	verifAssume(bs >= 1)
+	verifAssume(bs <= 64*1024)
+	ms := verifNondetInt("maxSize")
+	verifAssume(ms >= bs)
+	verifAssume(ms <= 8*1024*1024)
+	c.bookSize, c.maxSize = bs, ms
+	ref := verifRopeNew()
+	total := 0
+	vs := make([][]byte, 1)
+	for round := 0; round < 3; round++ {
+		rs := c.inputs(vs)
+		verifAssert(len(rs) == 1 && len(rs[0]) > 0, "C04/recv/no-space-booked")
+		switch verifPick("kernel.answer", 0, 2) {
+		case 0:
+			n := verifNondetInt("readv.n")
+			verifAssume(n >= 1)
+			verifAssume(n <= len(rs[0]))
+			verifFill(rs[0][:n])
+			verifRopeAppend(ref, rs[0][:n])
+			total += n
+			c.inputAck(n)
+		case 1:
+			c.inputAck(0)
+		case 2:
+			c.inputAck(-1)
+		}
+		verifAssert(c.inputBuffer.Len() == total, "C04/recv/len-differs-from-bytes-received")
+	}
+	if total > 0 {
+		p, err := c.Reader().Next(total)
+		verifAssert(err == nil && len(p) == total, "C04/recv/next-failed")
+		verifAssert(verifRopeMatch(ref, 0, p), "C04/recv/bytes-differ-from-what-the-kernel-stored")
+	}
+	verifAssert(c.inputBuffer.Len() == 0, "C04/recv/len-after-drain")
+	verifReach("end")
+}
